@@ -1189,14 +1189,22 @@ fn url_text_is_escaped(url: &'static str) {
     std::mem::forget((w, ctx));
 }
 
+/// iri-string's validator (a third-party parser; even on a concrete URL it does not finish within
+/// 10 minutes / 7 GB) is replaced by acceptance: the two URLs below are valid RFC 3986 URIs.
+pub fn stub_iri_validate_ok<S: iri_string::spec::Spec>(_s: &str) -> Result<(), iri_string::validate::Error> {
+    Ok(())
+}
+
 #[kani::proof]
 #[kani::unwind(50)]
+#[kani::stub(iri_string::validate::iri, stub_iri_validate_ok)]
 fn c10_url_plain() {
     url_text_is_escaped("http://h/c")
 }
 
 #[kani::proof]
 #[kani::unwind(50)]
+#[kani::stub(iri_string::validate::iri, stub_iri_validate_ok)]
 fn c10_url_with_metacharacters() {
     url_text_is_escaped("http://h/?a&b='c'")
 }
